@@ -103,7 +103,7 @@ fn gen_plan(focus: &str, seed: u64, run: u64, tier: Tier) -> Plan {
     let recorded = {
         let mut r2 = Rng::derive(seed, run, stream ^ 0x55);
         let adapt = [if on(&mut rng, 60) { rng.range(20, 90) } else { 0 }, if on(&mut rng, 50) { rng.range(10, 60) } else { 0 }, if on(&mut rng, 40) { rng.range(10, 60) } else { 0 }];
-        let chooser = Chooser::Record { rng: &mut r2, drop, dup, delay, max_delay_ms, until_ns: horizon_ms * 1_000_000, out: vec![], adapt, next_data: 500_000 };
+        let chooser = Chooser::Record { rng: &mut r2, drop, dup, delay, max_delay_ms, until_ns: horizon_ms * 1_000_000, out: vec![], adapt, next_data: 500_000, vote_hold: if on(&mut rng, 35) { rng.range(50, 400) } else { 0 } };
         let mut sim = Sim::new(&plan, chooser);
         sim.run();
         sim.recorded()
